@@ -192,6 +192,11 @@ def gen(cls, idx, rng, tier):
                                             rng.randint(0, 4))}
                 ops.append(("enter", args, rng.random() < .25))
                 depth += 1
+            elif k < .53 and depth < 5 and ops:
+                # re-enter a context object created earlier (possibly one
+                # that is still active further down the stack)
+                ops.append(("reenter", rng.randrange(8)))
+                depth += 1
             elif k < .65 and depth:
                 ops.append(("exit",))
                 depth -= 1
@@ -530,7 +535,7 @@ def run_nesting(case, ctx):
     class Boom(Exception):
         pass
     model = [dict(mc.get_context_arguments())]     # stack of dicts
-    open_ctx = []
+    pool = []       # (context object, its model dict): may be re-entered
 
     def merged():
         out = {}
@@ -558,11 +563,17 @@ def run_nesting(case, ctx):
         while i < len(case["ops"]):
             op = case["ops"][i]
             i += 1
-            if op[0] == "enter":
-                c = mc.application(op[1].get("app_id", 66)) if op[2] else \
-                    mc(**op[1])
-                d = dict(op[1]) if not op[2] else \
-                    {"app_id": op[1].get("app_id", 66)}
+            if op[0] in ("enter", "reenter"):
+                if op[0] == "reenter" and not pool:
+                    continue
+                if op[0] == "reenter":
+                    c, d = pool[op[1] % len(pool)]
+                else:
+                    c = mc.application(op[1].get("app_id", 66)) if op[2] \
+                        else mc(**op[1])
+                    d = dict(op[1]) if not op[2] else \
+                        {"app_id": op[1].get("app_id", 66)}
+                    pool.append((c, d))
                 depth_before = len(model)
                 model.append(d)
                 try:
